@@ -24,11 +24,11 @@ variable {V : Type}
 theorem bus_publishes_once (cfg : BusCfg V) (v : V) :
     ((send cfg v).1.filter isPublish).length ≤ 1 ∧
     ((send cfg v).2 = none →
-      ∃ payload topic, cfg.encode v = some payload ∧ cfg.topicOf (cfg.nameOf v) = some topic ∧
+      ∃ payload topic, cfg.encode v = some payload ∧ cfg.topicOf (cfg.nameOf v) v = some topic ∧
         (send cfg v).1.filter isPublish =
           [.publish topic (applyCb cfg.modify (applyCb cfg.hook [(nameKey, cfg.nameOf v)])) payload]) := by
   rcases cfg with ⟨enc, nm, top, hook, mod, ok⟩
-  cases he : enc v <;> cases ht : top (nm v) <;> rcases hook with _ | _ | f <;> rcases mod with _ | _ | g <;>
+  cases he : enc v <;> cases ht : top (nm v) v <;> rcases hook with _ | _ | f <;> rcases mod with _ | _ | g <;>
     cases ok <;>
     simp [send, marshal, he, ht, isPublish, List.filter, applyCb, metaSet]
 
@@ -37,13 +37,13 @@ theorem bus_publishes_once (cfg : BusCfg V) (v : V) :
 theorem bus_name_metadata (cfg : BusCfg V) (v : V) (topic : String) (md : Meta) (payload : Bytes)
     (hh : KeepsName cfg.hook) (hm : KeepsName cfg.modify)
     (hp : BusEff.publish topic md payload ∈ (send cfg v).1) :
-    nameFromMeta md = cfg.nameOf v ∧ cfg.topicOf (cfg.nameOf v) = some topic ∧ cfg.encode v = some payload := by
+    nameFromMeta md = cfg.nameOf v ∧ cfg.topicOf (cfg.nameOf v) v = some topic ∧ cfg.encode v = some payload := by
   have base : nameFromMeta [(nameKey, cfg.nameOf v)] = cfg.nameOf v := by
     simp [nameFromMeta, metaGet, List.lookup]
   have key : nameFromMeta (applyCb cfg.modify (applyCb cfg.hook [(nameKey, cfg.nameOf v)])) = cfg.nameOf v := by
     rw [hm, hh, base]
   rcases cfg with ⟨enc, nm, top, hook, mod, ok⟩
-  cases he : enc v <;> cases ht : top (nm v) <;> rcases hook with _ | _ | f <;> rcases mod with _ | _ | g <;>
+  cases he : enc v <;> cases ht : top (nm v) v <;> rcases hook with _ | _ | f <;> rcases mod with _ | _ | g <;>
     simp [send, marshal, he, ht, applyCb, metaSet] at hp key ⊢
   all_goals (obtain ⟨rfl, rfl, rfl⟩ := hp; simp_all)
 
@@ -55,45 +55,64 @@ theorem bus_hook_before_publish (cfg : BusCfg V) (v : V) (pre post : List BusEff
                   BusEff.hook (cfg.nameOf v) [(nameKey, cfg.nameOf v)] payload ∈ pre) := by
   rcases cfg with ⟨enc, nm, top, hook, mod, ok⟩
   cases e <;> simp [isPublish] at he
-  cases hen : enc v <;> cases ht : top (nm v) <;> rcases hook with _ | _ | f <;> rcases mod with _ | _ | g <;>
+  cases hen : enc v <;> cases ht : top (nm v) v <;> rcases hook with _ | _ | f <;> rcases mod with _ | _ | g <;>
     simp [send, marshal, hen, ht, metaSet] at hs ⊢ <;>
     rcases pre with _ | ⟨a, _ | ⟨b, _ | ⟨c, _ | ⟨d, pre⟩⟩⟩⟩ <;> simp_all <;> grind
 
 /-- **an error before the publish aborts the send**: marshal error, topic generator error, OnSend/OnPublish error or
     `modify` error ⇒ nothing is published and the send reports an error -/
 theorem bus_error_aborts (cfg : BusCfg V) (v : V)
-    (h : cfg.encode v = none ∨ cfg.topicOf (cfg.nameOf v) = none ∨ cfg.hook = some none ∨ cfg.modify = some none) :
+    (h : cfg.encode v = none ∨ cfg.topicOf (cfg.nameOf v) v = none ∨ cfg.hook = some none ∨ cfg.modify = some none) :
     (send cfg v).1.filter isPublish = [] ∧ (send cfg v).2 ≠ none := by
   rcases cfg with ⟨enc, nm, top, hook, mod, ok⟩
-  cases he : enc v <;> cases ht : top (nm v) <;> rcases hook with _ | _ | f <;> rcases mod with _ | _ | g <;>
+  cases he : enc v <;> cases ht : top (nm v) v <;> rcases hook with _ | _ | f <;> rcases mod with _ | _ | g <;>
     simp_all [send, marshal, isPublish, List.filter]
 
 /-- the send succeeds exactly when every step does -/
 theorem bus_result_ok_iff (cfg : BusCfg V) (v : V) :
     (send cfg v).2 = none ↔
-      ((cfg.encode v).isSome ∧ (cfg.topicOf (cfg.nameOf v)).isSome ∧ cfg.hook ≠ some none ∧ cfg.modify ≠ some none ∧
+      ((cfg.encode v).isSome ∧ (cfg.topicOf (cfg.nameOf v) v).isSome ∧ cfg.hook ≠ some none ∧ cfg.modify ≠ some none ∧
         cfg.pubOk = true) := by
   rcases cfg with ⟨enc, nm, top, hook, mod, ok⟩
-  cases he : enc v <;> cases ht : top (nm v) <;> rcases hook with _ | _ | f <;> rcases mod with _ | _ | g <;>
+  cases he : enc v <;> cases ht : top (nm v) v <;> rcases hook with _ | _ | f <;> rcases mod with _ | _ | g <;>
     cases ok <;> simp_all [send, marshal]
 
 /-- a failing publisher was called exactly once (no retry, no second topic) -/
 theorem bus_publish_error_once (cfg : BusCfg V) (v : V) (h : (send cfg v).2 = some .publish) :
     ((send cfg v).1.filter isPublish).length = 1 := by
   rcases cfg with ⟨enc, nm, top, hook, mod, ok⟩
-  cases he : enc v <;> cases ht : top (nm v) <;> rcases hook with _ | _ | f <;> rcases mod with _ | _ | g <;>
+  cases he : enc v <;> cases ht : top (nm v) v <;> rcases hook with _ | _ | f <;> rcases mod with _ | _ | g <;>
     cases ok <;> simp_all [send, marshal, isPublish, List.filter]
+
+/-- **each value on the topic generated for *it***: in any sequence of sends through one bus – any length, any
+    configuration changes between the sends, a topic generator that reads the value – the `j`-th send does exactly what a
+    single send of the `j`-th value under the `j`-th configuration does; in particular, when it succeeds it publishes once,
+    on `GeneratePublishTopic{name of that value, that value}`, whatever was sent before. -/
+theorem bus_each_send_on_its_own_topic (l : List (BusCfg V × V)) (j : Nat) (cfg : BusCfg V) (v : V)
+    (hj : l[j]? = some (cfg, v)) :
+    (sendSeq l)[j]? = some (send cfg v) ∧
+    ((send cfg v).2 = none →
+      ∃ payload topic, cfg.encode v = some payload ∧ cfg.topicOf (cfg.nameOf v) v = some topic ∧
+        (send cfg v).1.filter isPublish =
+          [.publish topic (applyCb cfg.modify (applyCb cfg.hook [(nameKey, cfg.nameOf v)])) payload]) := by
+  refine ⟨?_, (bus_publishes_once cfg v).2⟩
+  simp [sendSeq, hj]
 
 /-! non-vacuity: a JSON-like command bus with an OnSend hook that adds a key -/
 section
 private def exCfg : BusCfg Nat :=
-  { encode := fun n => some [UInt8.ofNat n], nameOf := fun _ => "main.Cmd", topicOf := fun n => some ("t." ++ n),
+  { encode := fun n => some [UInt8.ofNat n], nameOf := fun _ => "main.Cmd", topicOf := fun n v => some ("t." ++ toString (v % 2) ++ "." ++ n),
     hook := some (some (fun md => metaSet md "x" "1")), modify := none, pubOk := true }
 example : send exCfg 7 =
     ([.topicGen "main.Cmd", .hook "main.Cmd" [("name", "main.Cmd")] [7],
-      .publish "t.main.Cmd" [("x", "1"), ("name", "main.Cmd")] [7]], none) := by decide
+      .publish "t.1.main.Cmd" [("x", "1"), ("name", "main.Cmd")] [7]], none) := by decide
 example : KeepsName exCfg.hook := keepsName_set "x" "1" (by decide)
 example : (send { exCfg with hook := some none } 7).2 = some .hook := by decide
+-- two values of one type (same name), a generator that reads the value: two different topics
+example : ((sendSeq [(exCfg, 7), (exCfg, 8), (exCfg, 9)]).map (fun r => r.1.filter isPublish)) =
+    [[.publish "t.1.main.Cmd" [("x", "1"), ("name", "main.Cmd")] [7]],
+     [.publish "t.0.main.Cmd" [("x", "1"), ("name", "main.Cmd")] [8]],
+     [.publish "t.1.main.Cmd" [("x", "1"), ("name", "main.Cmd")] [9]]] := by decide
 end
 
 /-! ## command and event processors (one router handler per registered handler) -/
@@ -392,7 +411,7 @@ theorem value_round_trip_group (cfg : BusCfg V) (c : Codec V) (fl : Flags) (reg 
 section
 private def rtCodec : Codec Nat := ⟨fun _ b => match b with | [x] => some x.toNat | _ => none⟩
 private def rtMsg : Msg := { id := 3, md := [("x", "1"), ("name", "main.Cmd")], payload := [7], ctx := [], out := fun _ => .ok }
-example : BusEff.publish "t.main.Cmd" rtMsg.md rtMsg.payload ∈ (send exCfg 7).1 := by decide
+example : BusEff.publish "t.1.main.Cmd" rtMsg.md rtMsg.payload ∈ (send exCfg 7).1 := by decide
 example : (single rtCodec .event ⟨false, false⟩ 0 ⟨"main.Cmd", 0⟩ rtMsg).1.map (fun i => (i.h, i.value, i.orig)) = [(0, 7, some 3)] := by
   decide
 end
